@@ -1,7 +1,9 @@
 #!/bin/bash
-# runs every claimed check once (quick tier) in /verif against /repo, sequentially; summary in /var/tmp/run_all.log
+# usage: run_all.sh [tier] [ids...]   runs the claimed checks once in /verif against /repo, sequentially; one summary line per check on stdout
 cd /verif
-for id in $(python3 -c "import json; print(' '.join(c['property_id'] for c in json.load(open('MANIFEST.json'))['checks']))"); do
-  s=$(date +%s); ./check $id --tier quick > /var/tmp/run_all_$id.log 2>&1; rc=$?; e=$(date +%s)
-  echo "$id rc=$rc $((e-s))s $(grep -c ' ok ' /var/tmp/run_all_$id.log) units ok; $(grep -E 'VIOLATION|UNDECIDED|KNOWN-FINDING' /var/tmp/run_all_$id.log | cut -c1-160 | tr '\n' '|')"
+T=${1:-quick}; shift
+IDS="$@"; [ -z "$IDS" ] && IDS=$(python3 -c "import json; print(' '.join(c['property_id'] for c in json.load(open('MANIFEST.json'))['checks']))")
+for id in $IDS; do
+  s=$(date +%s); ./check $id --tier $T > /var/tmp/run_all_${T}_$id.log 2>&1; rc=$?; e=$(date +%s)
+  echo "$id rc=$rc $((e-s))s $(grep -c ' ok ' /var/tmp/run_all_${T}_$id.log) units ok; $(grep -E 'VIOLATION|UNDECIDED|KNOWN-FINDING' /var/tmp/run_all_${T}_$id.log | cut -c1-160 | tr '\n' '|')"
 done
